@@ -10965,10 +10965,14 @@ tsk_table_collection_check_tree_integrity(const tsk_table_collection_t *self)
     }
     tsk_bug_assert(j == num_edges);
     while (k < num_edges) {
-        /* At this point it must be that used_edges[O[k]] == 1,
-         * since otherwise we would have added a different edge twice,
-         * and so hit the error above. */
+        /* Every edge left in the removal order was inserted once and has not
+         * been removed: an order naming one edge several times is rejected
+         * here just as in the sweep above. */
         e = O[k];
+        if (used_edges[e] != 1) {
+            ret = tsk_trace_error(TSK_ERR_TABLES_BAD_INDEXES);
+            goto out;
+        }
         if (edge_right[e] != sequence_length) {
             ret = tsk_trace_error(TSK_ERR_TABLES_BAD_INDEXES);
             goto out;
